@@ -1,5 +1,7 @@
 (** C03 — on every correspondence case, agreement with the model implies the list-of-lists specification
-    (corollary of the history theorem for the three lawful harness items). *)
+    (corollary of the history theorem for the three lawful harness items): the outputs are those of the
+    specification, and every item that remove_at returned — compared with the model as a whole — is a one-element
+    subtree root for the removed element ([fresh_ok]), because the model's returned items are [Fresh]. *)
 From Coq Require Import ZArith List Bool Lia.
 From RlibV Require Import Common.Batch C03.Model C03.Corr C03.Proofs C03.ProofsInst.
 Import ListNotations.
@@ -14,17 +16,90 @@ Proof.
   destruct o; simpl; auto.
 Qed.
 
+(** ---------- boolean equalities ---------- *)
+Lemma c03_oeqb_refl (o : option Z) : oeqb Z.eqb o o = true.
+Proof. destruct o; simpl; auto using Z.eqb_refl. Qed.
+Lemma c03_leqb_refl (l : list Z) : leqb Z.eqb l l = true.
+Proof. induction l; simpl; auto. now rewrite Z.eqb_refl. Qed.
+Lemma c03_oeqb_eq (a b : option Z) : oeqb Z.eqb a b = true -> a = b.
+Proof. destruct a, b; simpl; try discriminate; auto. intros H. apply Z.eqb_eq in H. now subst. Qed.
+Lemma c03_leqb_eq {X} (e : X -> X -> bool) : (forall x y, e x y = true -> x = y) ->
+  forall l l', leqb e l l' = true -> l = l'.
+Proof.
+  intros He l. induction l as [|x l IH]; intros [|y l'] H; simpl in H; try discriminate; auto.
+  apply andb_true_iff in H. destruct H as [H1 H2]. f_equal; auto.
+Qed.
+Lemma ritem_eqb_eq a b : ritem_eqb a b = true -> a = b.
+Proof.
+  destruct a, b. unfold ritem_eqb. simpl. rewrite !andb_true_iff, !Z.eqb_eq.
+  intros [[[[[-> ->] ->] ->] ->] ->]. reflexivity.
+Qed.
+Lemma out_eqb_eq (a b : out) : out_eqb a b = true -> a = b.
+Proof.
+  destruct a, b; simpl; try discriminate; auto; intros H.
+  - now apply c03_oeqb_eq in H; subst.
+  - apply (c03_leqb_eq Z.eqb (fun x y E => proj1 (Z.eqb_eq x y) E)) in H. now subst.
+  - apply Z.eqb_eq in H. now subst.
+  - now apply c03_oeqb_eq in H; subst.
+  - apply ritem_eqb_eq in H. now subst.
+Qed.
+
+Lemma all2_map_map {X Y W} (P : Y -> W -> bool) (f : X -> Y) (g : X -> W) (l : list X) :
+  Forall (fun x => P (f x) (g x) = true) l -> all2 P (map f l) (map g l) = true.
+Proof. induction 1 as [|x l Hx Hl IH]; simpl; auto. now rewrite Hx, IH. Qed.
+
+(** ---------- an item that is [Fresh] in the model is printed as a [fresh_ok] item ---------- *)
+Lemma fresh_ok0 x : Fresh isize ix ism zsum isz_pending x -> fresh_ok 0 (ix x) (ri0 x) = true.
+Proof.
+  intros (Hp & Ha & Hs). unfold isz_pending in Hp. unfold fresh_ok, ri0. cbn [r_x r_agg r_sz r_t1 r_t2 r_t3].
+  rewrite Ha, Hs, Hp. simpl zsum. now rewrite !Z.eqb_refl.
+Qed.
+Lemma fresh_ok1 x : Fresh asize ax asm zsum iaa_pending x -> fresh_ok 1 (ax x) (ri1 x) = true.
+Proof.
+  intros (Hp & Ha & Hs). unfold iaa_pending, acts, tagf in Hp. simpl in Hp.
+  pose proof (Hp 0) as H0. pose proof (Hp 1) as H1.
+  unfold fresh_ok, ri1. destruct (aset x) as [c|]; [exfalso; lia|].
+  cbn [r_x r_agg r_sz r_t1 r_t2 r_t3]. rewrite Ha, Hs. replace (aadd x) with 0 by lia.
+  simpl zsum. now rewrite !Z.eqb_refl.
+Qed.
+Lemma fresh_ok2 k x : Fresh hsz hx ihs_agg hashagg ihs_pending x -> fresh_ok (S (S k)) (hx x) (ri2 x) = true.
+Proof.
+  intros (Hp & Ha & Hs). unfold ihs_pending in Hp. simpl in Hp. unfold fresh_ok, ri2.
+  cbn [r_x r_agg r_sz r_t1 r_t2 r_t3]. rewrite <- Ha. unfold ihs_agg. rewrite Hs, Hp. now rewrite !Z.eqb_refl.
+Qed.
+
+(** one output of the model (printed) against the same output as the specification sees it *)
+Lemma spec_ok_model {T A} (kind : nat) (elem : T -> Z) (ri : T -> ritem) (fa : A -> Z) (r : @output T Z A) :
+  (forall x, r = ORemoved x -> fresh_ok kind (elem x) (ri x) = true) ->
+  spec_ok kind (out_map idZ fa (out_elem elem r)) (out_map ri fa r) = true.
+Proof.
+  intros Hf. destruct r; cbn [out_elem out_map spec_ok]; auto.
+  - apply c03_oeqb_refl.
+  - apply c03_leqb_refl.
+  - apply Z.eqb_refl.
+  - apply c03_oeqb_refl.
+  - apply (Hf x eq_refl).
+Qed.
+Lemma out_map_id (s : sout) : out_map idZ idZ s = s.
+Proof. destruct s; simpl; auto. destruct o; reflexivity. Qed.
+
 Theorem model_check_spec_check (c : case) : model_check c = true -> spec_check c = true.
 Proof.
   destruct c as [kind ops ps [o|]]; simpl; [|discriminate].
+  intros Hm. apply (c03_leqb_eq out_eqb out_eqb_eq) in Hm. subst o.
   unfold spec_outputs, model_outputs. destruct kind as [|[|k]].
   - unfold srun0, run0. destruct (srun ix Z.add zsum [] (map to_op0 ops)) as [[sst outs]|] eqn:E; simpl; [|reflexivity].
-    destruct (history _ _ _ _ _ _ _ _ _ isz_lawful ps _ sst outs (conv_fresh _ _ _ _ _ _ _ isz_fresh ops) E) as [H _].
-    unfold run_outputs in H. intros Hm. rewrite <- H. exact Hm.
+    destruct (history _ _ _ _ _ _ _ _ _ isz_lawful ps _ sst outs (conv_fresh _ _ _ _ _ _ _ isz_fresh ops) E) as (H & Hf & _).
+    unfold run_outputs in H, Hf. rewrite <- H. apply all2_map_map. eapply Forall_impl; [|exact Hf].
+    intros r Hr. rewrite <- (out_map_id (out_elem ix r)). apply spec_ok_model.
+    intros x ->. now apply fresh_ok0.
   - unfold srun1, run1. destruct (srun ax amod_act zsum [] (map to_op1 ops)) as [[sst outs]|] eqn:E; simpl; [|reflexivity].
-    destruct (history _ _ _ _ _ _ _ _ _ iaa_lawful ps _ sst outs (conv_fresh _ _ _ _ _ _ _ iaa_fresh ops) E) as [H _].
-    unfold run_outputs in H. intros Hm. rewrite <- H. exact Hm.
+    destruct (history _ _ _ _ _ _ _ _ _ iaa_lawful ps _ sst outs (conv_fresh _ _ _ _ _ _ _ iaa_fresh ops) E) as (H & Hf & _).
+    unfold run_outputs in H, Hf. rewrite <- H. apply all2_map_map. eapply Forall_impl; [|exact Hf].
+    intros r Hr. rewrite <- (out_map_id (out_elem ax r)). apply spec_ok_model.
+    intros x ->. now apply fresh_ok1.
   - unfold srun2, run2. destruct (srun hx Z.add hashagg [] (map to_op2 ops)) as [[sst outs]|] eqn:E; simpl; [|reflexivity].
-    destruct (history _ _ _ _ _ _ _ _ _ ihs_lawful ps _ sst outs (conv_fresh _ _ _ _ _ _ _ ihs_fresh ops) E) as [H _].
-    unfold run_outputs in H. intros Hm. rewrite <- H. exact Hm.
+    destruct (history _ _ _ _ _ _ _ _ _ ihs_lawful ps _ sst outs (conv_fresh _ _ _ _ _ _ _ ihs_fresh ops) E) as (H & Hf & _).
+    unfold run_outputs in H, Hf. rewrite <- H. rewrite map_map. apply all2_map_map. eapply Forall_impl; [|exact Hf].
+    intros r Hr. apply spec_ok_model. intros x ->. now apply fresh_ok2.
 Qed.
